@@ -80,7 +80,24 @@ func init() {
 			m.frozen = make(map[*value]bool)
 			m.frozenMaps = make(map[*mapV]bool)
 		}
-		m.freezeWalk(a[0], make(map[interface{}]bool))
+		seen := make(map[interface{}]bool)
+		m.freezeWalk(a[0], seen)
+		// everything reachable from the package's own variables is shared between all calls as well
+		// (a package-level scratch buffer is shared mutable state); harness variables are exempt.
+		// Computed once per path: package variables are not reassigned.
+		if m.globalFrozen == nil {
+			saveF, saveM := m.frozen, m.frozenMaps
+			m.frozen, m.frozenMaps = make(map[*value]bool), make(map[*mapV]bool)
+			gseen := make(map[interface{}]bool)
+			for g, cell := range m.globals {
+				if strings.HasPrefix(g.Name(), "vf") || strings.HasPrefix(g.Name(), "init$") || strings.HasPrefix(g.Name(), "errVf") {
+					continue
+				}
+				m.freezeWalk(cell, gseen)
+			}
+			m.globalFrozen, m.globalFrozenMaps = m.frozen, m.frozenMaps
+			m.frozen, m.frozenMaps = saveF, saveM
+		}
 		return nil
 	})
 	vf("vfFreezeStop", func(m *Machine, fr *frame, a []value) value {
@@ -119,6 +136,7 @@ func init() {
 		unix, ok := m.timeParseUF(a[1].(string), a[0].(string))
 		return tuple{unix, ok}
 	})
+	vf("vfConcurrently", func(m *Machine, fr *frame, a []value) value { return nil })
 	vf("vfRand", func(m *Machine, fr *frame, a []value) value {
 		// a *rand.Rand whose Intn is the nondeterministic stub
 		p := new(value)
